@@ -20,4 +20,7 @@ DEF_T(__t_imaginary, _ZN4bloc5Value14type_imaginaryE, IMAGINARY)
   PIN_T(_ZN4bloc5Value12type_literalE, __t_literal, LITERAL) && PIN_T(_ZN4bloc5Value12type_complexE, __t_complex, COMPLEX) && \
   PIN_T(_ZN4bloc5Value12type_tabcharE, __t_tabchar, TABCHAR) && PIN_T(_ZN4bloc5Value12type_rowtypeE, __t_rowtype, ROWTYPE) && \
   PIN_T(_ZN4bloc5Value12type_pointerE, __t_pointer, POINTER) && PIN_T(_ZN4bloc5Value14type_imaginaryE, __t_imaginary, IMAGINARY))
+/* keyword tables (only ever passed on to error constructors) */
+const char *_ZN4bloc16MemberExpression8KEYWORDSE[16];
+const char *_ZN4bloc17BuiltinExpression8KEYWORDSE[128];
 #endif
